@@ -28,6 +28,15 @@ EXTRACTS = [
       rules=[('R11.adv', r'_bit_range\.bit_advance\(', 'br_bit_advance(&self->_bit_range, ', True)]),
     X('it_distance_to', IT, r'auto distance_to\(bit_aligned_pixel_iterator const& it\) const -> difference_type \{', count=1,
       rules=[('R11.dist', r'_bit_range\.bit_distance_to\(it\._bit_range\)', 'br_bit_distance_to(&self->_bit_range, &it->_bit_range)', True)]),
+    # at_c<K>(bit_aligned_pixel_reference): the channel reference of channel K (the caller of the channel reference's constructor)
+    X('at_c_bitref', BR, r'auto at_c\(const bit_aligned_pixel_reference<BitField, ChannelBitSizes, L, IsMutable>& p\)\s*->[^{]*\{', count=1,
+      rules=[('R6.drop_using', r'using \w+ = [^;]+;', '', True),
+             ('R12.copy', r'bit_range_t bit_range\(p\.bit_range\(\)\);', 'bit_range_t bit_range = p->_bit_range;', False),
+             ('R12.ref', r'auto const& bit_range = p\.bit_range\(\);', 'bit_range_t bit_range = p->_bit_range;', False),
+             ('R8.sum_k', r'detail::sum_k<ChannelBitSizes, K>::value', 'SUM_K', True),
+             ('R11.adv', r'\bbit_range\.bit_advance\(', 'br_bit_advance(&bit_range, ', False),
+             ('R11.byte', r'\bbit_range\.current_byte\(\)', 'bit_range._current_byte', True), ('R11.off', r'\bbit_range\.bit_offset\(\)', 'bit_range._bit_offset', True),
+             ('R12.ctor', r'return channel_t\(', 'return chan_ref_ctor(', True)]),
 ]
 
 PRE = r'''
@@ -36,6 +45,12 @@ typedef ptrdiff_t difference_type;
 #define bit_size BIT_SIZE
 typedef struct { unsigned char* _current_byte; int _bit_offset; } bit_range_t;
 typedef struct { bit_range_t _bit_range; } bit_it_t;
+typedef struct { bit_range_t _bit_range; } bit_pixref_t;          /* bit_aligned_pixel_reference: its bit_range */
+typedef struct { unsigned char* _data; int _first_bit; } chan_ref_t;  /* packed_dynamic_channel_reference: data pointer and first bit */
+int g_sum_k;                                                       /* ghost: detail::sum_k<ChannelBitSizes, K>::value, the bits of the channels before channel K */
+#define SUM_K g_sum_k
+/* packed_dynamic_channel_reference(data, first_bit) stores its arguments; its get / set contracts (C08 unit dynref) require first_bit <= 7 */
+static chan_ref_t chan_ref_ctor(unsigned char* data, int first_bit) { chan_ref_t r; r._data = data; r._first_bit = first_bit; return r; }
 /* ghost buffer the cursor lives in */
 unsigned char* g_buf; size_t g_n;
 #define OFF(p) ((int64_t)__CPROVER_POINTER_OFFSET((p)->_current_byte))
@@ -74,6 +89,11 @@ def fns():
                                  requires=[fresh, '__CPROVER_is_fresh(b, sizeof(*b))', 'INV(self)', 'INV(b)'],
                                  ensures=[('bounded', '-LIM <= RET && RET <= LIM'), ('the difference of the absolute bit positions', 'RET == POS(b) - POS(self)')],
                                  comment='bit_range::bit_distance_to(b)')
+    f['at_c_bitref'] = Fn('at_c_bitref', 'chan_ref_t', [('const bit_pixref_t*', 'p')], 'at_c_bitref',
+                          requires=['__CPROVER_is_fresh(p, sizeof(*p))', 'INV(&p->_bit_range)', '0 <= SUM_K && SUM_K <= 64', 'POS(&p->_bit_range) + SUM_K <= 8 * (int64_t)g_n'],
+                          ensures=[('precondition of the channel reference it constructs: first bit inside the first byte', '__CPROVER_same_object(RET._data, g_buf) && 0 <= RET._first_bit && RET._first_bit <= 7'),
+                                   ('channel K starts sum_k bits after the first bit of the pixel', '8 * (int64_t)__CPROVER_POINTER_OFFSET(RET._data) + RET._first_bit == POS(&p->_bit_range) + SUM_K')],
+                          comment='at_c<K>(bit_aligned_pixel_reference const&)')
     f['it_advance'] = Fn('it_advance', 'void', [('bit_it_t*', 'self'), ('difference_type', 'd')], 'it_advance',
                          requires=[fresh, 'INV(&self->_bit_range)', '-(LIM / 64) <= d && d <= LIM / 64',
                                    '0 <= POS(&self->_bit_range) + d * bit_size && POS(&self->_bit_range) + d * bit_size <= 8 * (int64_t)g_n'],
@@ -118,13 +138,30 @@ REPLAY = r'''
 // native replay: bit_range over a real buffer.  The counterexample fixes the move; the cursor's start bit offset
 // (hidden state of the fresh object in the verifier's model) is enumerated over 0..7.
 #include <boost/gil/bit_aligned_pixel_reference.hpp>
+#include <boost/gil.hpp>
 #include <vector>
+#include <cstring>
 #include "vreplay.hpp"
 using namespace boost::gil;
 #include "inst.hpp"
 int main(int argc, char** argv){ vr::parse(argc, argv);
   long long n = vr::i64("num_bits", vr::i64("n", vr::i64("d", 1) * BIT_SIZE));
   std::string obl = vr::str("obl");
+  if (obl.find("at_c") != std::string::npos) {
+    // channel references of bit-aligned pixel references whose bit field is exactly as wide as the pixel, at every valid bit offset:
+    // a value written through at_c<K> is read back, and no bit outside the channel changes
+    { using ref_t = bit_aligned_pixel_reference<uint8_t, boost::mp11::mp_list_c<int, 2, 2, 2, 2>, rgba_layout_t, true>;
+      for (int off = 0; off < 8; off += 2) for (int fillv : {0x00, 0xFF}) for (int v = 0; v < 4; v++) { unsigned char b[4] = {(unsigned char)fillv, (unsigned char)fillv, (unsigned char)fillv, (unsigned char)fillv}; ref_t r(b + 1, off);
+        for (int k = 0; k < 4; k++) { unsigned char c[4]; std::memcpy(c, b, 4); int expect_bit = 8 + off + 2 * k;
+          if (k == 0) at_c<0>(r) = v; if (k == 1) at_c<1>(r) = v; if (k == 2) at_c<2>(r) = v; if (k == 3) at_c<3>(r) = v;
+          int got = k == 0 ? (int)at_c<0>(r) : k == 1 ? (int)at_c<1>(r) : k == 2 ? (int)at_c<2>(r) : (int)at_c<3>(r);
+          if (got != v) REPRODUCED("rgba2222 in uint8_t at bit offset %d: channel %d wrote %d, read back %d", off, k, v, got);
+          for (int bit = 0; bit < 32; bit++) if (bit != expect_bit && bit != expect_bit + 1 && (((b[bit / 8] >> (bit % 8)) & 1) != ((c[bit / 8] >> (bit % 8)) & 1)))
+            REPRODUCED("rgba2222 in uint8_t at bit offset %d: writing channel %d changed bit %d (outside the channel)", off, k, bit); } } }
+    { using ref_t = bit_aligned_pixel_reference<uint16_t, boost::mp11::mp_list_c<int, 5, 6, 5>, rgb_layout_t, true>;
+      for (int off = 0; off < 8; off++) for (int v : {0, 1, 17, 31}) { unsigned char b[6] = {0, 0, 0, 0, 0, 0}; ref_t r(b + 1, off); at_c<2>(r) = v; int got = (int)at_c<2>(r);
+        if (got != v) REPRODUCED("rgb565 in uint16_t at bit offset %d: channel 2 wrote %d, read back %d", off, v, got); } }
+    NOT_REPRODUCED("at_c<K> of bit-aligned pixel references stores and reads back every channel at every bit offset"); }
   if (obl.find("br_inc") != std::string::npos) n = BIT_SIZE;
   if (obl.find("br_dec") != std::string::npos) n = -BIT_SIZE;
   long long span = (n < 0 ? -n : n) / 8 + 4;
@@ -150,10 +187,10 @@ int main(int argc, char** argv){ vr::parse(argc, argv);
 def units(prop, sizes=((1, 'quick'), (3, 'quick'), (4, 'quick'), (7, 'quick'), (8, 'thorough'), (13, 'quick'), (24, 'thorough'), (6, 'thorough'), (2, 'thorough'))):
     out = []
     f = fns()
-    order = ['br_bit_advance', 'br_inc', 'br_dec', 'br_bit_distance_to', 'it_advance', 'it_distance_to']
+    order = ['br_bit_advance', 'br_inc', 'br_dec', 'br_bit_distance_to', 'it_advance', 'it_distance_to', 'at_c_bitref']
     tmpl = PRE + ''.join(f[k].text() for k in order) + LEMMAS
     # harnesses of Fn do not set up the ghost buffer: wrap
-    tmpl = tmpl.replace('void h_br_', 'void h0_br_').replace('void h_it_', 'void h0_it_')
+    tmpl = tmpl.replace('void h_br_', 'void h0_br_').replace('void h_it_', 'void h0_it_').replace('void h_at_c', 'void h0_at_c')
     hs = ['#ifndef VERIF_NATIVE']
     for k in order:
         fn = f[k]
@@ -169,6 +206,7 @@ def units(prop, sizes=((1, 'quick'), (3, 'quick'), (4, 'quick'), (7, 'quick'), (
             Check('bit_distance_to', 'h_br_bit_distance_to', enforce='br_bit_distance_to'),
             Check('it_advance', 'h_it_advance', enforce='it_advance', replace=['br_bit_advance'], inputs=('d',), small=['SMALL_CEX']),
             Check('it_distance_to', 'h_it_distance_to', enforce='it_distance_to', replace=['br_bit_distance_to']),
+            Check('at_c', 'h_at_c_bitref', enforce='at_c_bitref', replace=['br_bit_advance']),
             Check('lemma_there_and_back', 'h_there_and_back', engine='S', replace=['br_bit_advance'], inputs=('n',)),
             Check('lemma_distance_after_advance', 'h_distance_after_advance', engine='S', replace=['it_advance', 'it_distance_to'], inputs=('d',)),
             Check('lemma_inc_dec', 'h_inc_dec', engine='S', replace=['br_inc', 'br_dec']),
